@@ -302,7 +302,7 @@ func (d *DirectoryOutputHandler) writeDirectoryRecursive(
 			dir.Files = append(dir.Files, &gen.FileNode{
 				Name:         entry.Name(),
 				Digest:       digest,
-				IsExecutable: info.Mode()&0111 != 0,
+				IsExecutable: isOwnerExecutable(info.Mode()),
 			})
 		}
 	}
